@@ -54,8 +54,11 @@ def _run(ctx, replay):
         # flow control, where the known head-of-line finding cannot occur and mask anything)
         hs = vlib.tlc_gen(ctx, "Gen_Stream", n // 2, 60, seed * 104729 + 3)
         hc = vlib.tlc_gen(ctx, "Gen_StreamCount", n - n // 2, 60, seed * 104729 + 4)
+        # and sessions with one message size and byte limits that are exact multiples of it
+        hb = vlib.tlc_gen(ctx, "Gen_StreamBytes", 16 if tier == "quick" else 400, 60, seed * 104729 + 5)
         scen = [{"id": "stream-%d-%d" % (seed, i), "steps": h} for i, h in enumerate(hs)] + \
-               [{"id": "streamcount-%d-%d" % (seed, i), "steps": h} for i, h in enumerate(hc)]
+               [{"id": "streamcount-%d-%d" % (seed, i), "steps": h} for i, h in enumerate(hc)] + \
+               [{"id": "streambytes-%d-%d" % (seed, i), "steps": h} for i, h in enumerate(hb)]
         # direct binding of actions.MessageStreamer with a connection that acknowledges inside Send and
         # returns only when the ack has been completely handled (on the stream / outside it): the publishes
         # of the generated scripts, message-count flow control
